@@ -302,6 +302,59 @@ def check_out_idx(ck, prog):
         raise AnalysisBroken("C11-OUTIDX: only %d streaming stores found" % n)
 
 
+def check_restore(ck, prog):
+    """The single-call functions save `*in_pos` / `*out_pos` on entry and restore them when they fail ("positions are not
+    modified on error").  The restoring store has to be the LAST use of the position in the call: a later read sees the
+    start value, not where coding stopped -- e.g. the test "all input consumed => truncated input (LZMA_DATA_ERROR), else
+    output too small (LZMA_BUF_ERROR)" then classifies every truncated file as LZMA_BUF_ERROR (and the assertion next to
+    it fails in builds with assertions)."""
+    ck.rule("C11-RESTORE", "after a single-call function restored a position parameter, the position is not read again")
+    n = 0
+    for f in sorted(prog.all_functions("liblzma"), key=lambda f: (f.file, f.line)):
+        if not f.blocks:
+            continue
+        params = {v["n"] for v in f.vars if v.get("param")}
+        saved = {}
+        for b, i, e in f.iter_elems():
+            e_ = ex.deref(e)
+            if e_.get("k") == "decl" and e_.get("init") is not None:
+                i0 = ex.strip(e_["init"])
+                if i0 is not None and i0.get("k") == "un" and i0["op"] == "*" and ex.strip(i0["e"]).get("k") == "var" \
+                        and ex.strip(i0["e"])["n"] in params:
+                    saved[e_["n"]] = ex.strip(i0["e"])["n"]
+        if not saved:
+            continue
+        for b, i, e in f.iter_elems():
+            for (l, r, op, nd) in ex.writes(e):
+                ls = ex.strip(l)
+                rs = ex.strip(r) if r is not None else None
+                if not (ls is not None and ls.get("k") == "un" and ls["op"] == "*" and rs is not None and rs.get("k") == "var"
+                        and rs["n"] in saved and ex.show(ls["e"]) == saved[rs["n"]] and op == "="):
+                    continue
+                P = saved[rs["n"]]
+                after = cfg.reachable(f, [y for y in b.succs if y is not None])
+                bad = None
+                for bb, ii, ee in f.iter_elems():
+                    if not ((bb.id == b.id and ii > i) or (bb.id in after and bb.id != b.id)):
+                        continue
+                    wl = {id(ex.strip(l2)) for (l2, r2, o2, n2) in ex.writes(ee)}
+                    for x in ex.walk(ee):
+                        if x.get("k") == "un" and x["op"] == "*" and ex.show(x["e"]) == P and id(x) not in wl:
+                            bad = bad or x
+                    for c in ex.calls(ee, into_refs=False):
+                        if any(ex.show(a) == P for a in c["args"]):
+                            bad = bad or c
+                n += 1
+                ck.saw_function(f)
+                ck.ob("C11-RESTORE", "%s:%s" % (f.name, P), bad is None, common.where(f, bad or nd),
+                      "%s: `%s` is the last use of *%s" % (f.name, ex.show(nd), P) if bad is None else
+                      "%s(): *%s is restored to its start value at line %s and read again at line %s (`%s`): the test sees the "
+                      "start position instead of where coding stopped, so the failure is classified wrongly (a truncated "
+                      "input is reported as LZMA_BUF_ERROR \"output buffer too small\")" % (
+                          f.name, P, ex.line(nd), ex.line(bad), ex.show(bad)[:40]), key="RESTORE:%s:%s" % (f.name, P))
+    ck.floor("C11-RESTORE", 8)
+
+
 def run(ck):
     ck.explanation = (
         "The transition relation of lzma_code() is extracted by exhaustive finite-domain abstract evaluation "
@@ -314,6 +367,7 @@ def run(ck):
     check_acc(ck, prog)
     check_act(ck, prog)
     check_out_idx(ck, prog)
+    check_restore(ck, prog)
     # LZMA_BUF_ERROR is produced by lzma_code() only (second no-progress call), never by a coder (rule shared with C04)
     from . import C04
     C04.check_ret(ck, prog)
